@@ -1,1 +1,1002 @@
-//! C36: not implemented yet.
+//! C36 — Source (re)spawning is paced and follows removal reasons.
+//!
+//! Engine E-SCHED (timed): the REAL `spawner_task` loop (`ntpd/src/daemon/spawn/mod.rs`) runs as a
+//! tokio task on a current-thread runtime with a PAUSED clock; the harness plays the system and
+//! sends `SystemEvent`s at scripted instants. Virtual time only moves by tokio's paused-clock
+//! auto-advance (the driver sleeps until the next scripted instant; when every task is parked the
+//! clock jumps exactly to the earliest pending timer). `tokio::time::advance(250ms)` is deliberately
+//! NOT used: it jumps over deadlines lying between two grid points (e.g. the 1.3 s ticket deadline
+//! after a 0.3 s attempt) and would make the observed attempt times late by up to one grid step —
+//! a harness artefact, not behaviour of the code under test.
+//!
+//! Part A — scripted spawner (`Scr`, implements the real `Spawner` trait):
+//!   script   mode in {C: attempt creates a source and completes the spawner,
+//!                     I: attempt creates a source, spawner stays incomplete (a pool wanting more),
+//!                     F: attempt creates nothing, spawner stays incomplete (resolution failure)}
+//!            x try_spawn duration in {0, 300 ms, 1200 ms};   any removal makes `Scr` incomplete;
+//!   schedule n slots on a 250 ms grid shifted by `phase` ms; every slot carries one of
+//!            {none, Idle, Registered, Removed(Demobilized), Removed(NetworkIssue), Removed(Unreachable)};
+//!            ALL 6^n placements x all phases (phases put events exactly on, 1 ms before and 1 ms
+//!            after the instants at which attempts end / tickets are regranted);
+//!   quick    n = 5, phases {0,1,50,249};  thorough adds n = 6 x phases {49,51,199,200,201} and
+//!            n = 7 x phases {0,1,50,249}.
+//!   Oracle (from the statement; `s_i`/`e_i` start/end of attempt i, all in virtual time):
+//!     `C36:spawn-too-early`  s_{i+1} - s_i >= 1 s;
+//!     `C36:spawn-stalled`    first attempt by 1 s + 1 ms; after an attempt that leaves the spawner
+//!                            incomplete s_{i+1} <= e_i + 1 s + 1 ms (= s_i + duration + 1 s + 1 ms);
+//!                            after a Removed sent at t: an attempt starts no later than
+//!                            max(t, E + 1 s) + 1 ms, E = end of the attempt running at / last
+//!                            finished before t (checked when that deadline lies before the horizon);
+//!     `C36:event-delivery`   Registered/Removed events reach the spawner's handlers exactly once, in
+//!                            order, with the id and reason that were sent (events queued behind an
+//!                            attempt that is still running at the horizon may be outstanding);
+//!     `C36:task-ended`       the task neither ends nor panics while the system keeps its channel open.
+//!
+//! Part B — the real `StandardSpawner` under the real `spawner_task` with the scripted DNS stub
+//!   (8 pairwise distinct loopback addresses, so every lookup is visible as one rotation of the stub
+//!   list and yields a new first address):
+//!   schedule n slots on a 500 ms grid (+ phase), slot alphabet as above; Removed applies to the
+//!            source that is active at that instant (none active => the slot is a no-op),
+//!            Registered hands back the parameters of the last created source;
+//!   quick    n = 5, phases {0,1};  thorough adds n = 6, phases {0,1,499}.
+//!   Oracle:
+//!     `C36:demobilized-respawned`       no source is created after a Demobilized removal;
+//!     `C36:unreachable-not-reresolved`  the first source created after an Unreachable removal comes
+//!                                       from a lookup performed after that removal (stub rotated,
+//!                                       address = first address of that fresh answer);
+//!     `C36:spawn-too-early` / `C36:spawn-stalled` as above with creations as attempts (every attempt
+//!                                       succeeds: the stub always answers and loopback connects).
+//!
+//! Determinism is asserted: every 61st schedule is executed twice and the observations compared.
+use std::net::{IpAddr, Ipv4Addr, SocketAddr};
+use std::sync::{Arc, Mutex};
+use std::time::Duration;
+
+use ntp_proto::{ClockId, ProtocolVersion, SourceConfig};
+use tokio::sync::mpsc;
+use tokio::time::Instant;
+
+use super::common::{self, Ctx};
+use crate::daemon::config::verif_probe::gl::dns::{self as dnsp, DnsScript};
+use crate::daemon::config::StandardSource;
+use crate::daemon::spawn::standard::StandardSpawner;
+use crate::daemon::spawn::{
+    spawner_task, SockSourceCreateParameters, SourceCreateParameters, SourceRemovalReason,
+    SourceRemovedEvent, SpawnAction, SpawnEvent, Spawner, SpawnerId, SystemEvent,
+};
+
+const MS: u64 = 1000; // microseconds per millisecond; all observation times are in µs
+const WAIT: u64 = 1000 * MS; // the statement's "network wait period (one second)"
+const SLACK: u64 = MS; // 1 ms timer granularity
+
+fn us(t0: Instant) -> u64 {
+    Instant::now().duration_since(t0).as_micros() as u64
+}
+
+// ---------------------------------------------------------------------------------------------
+// slot alphabet
+// ---------------------------------------------------------------------------------------------
+const K_NONE: usize = 0;
+const K_IDLE: usize = 1;
+const K_REG: usize = 2;
+const K_RD: usize = 3;
+const K_RN: usize = 4;
+const K_RU: usize = 5;
+const KNAMES: [&str; 6] = ["-", "I", "G", "D", "N", "U"];
+
+fn reason_of(k: usize) -> SourceRemovalReason {
+    match k {
+        K_RD => SourceRemovalReason::Demobilized,
+        K_RN => SourceRemovalReason::NetworkIssue,
+        _ => SourceRemovalReason::Unreachable,
+    }
+}
+
+fn reason_code(r: &SourceRemovalReason) -> usize {
+    match r {
+        SourceRemovalReason::Demobilized => K_RD,
+        SourceRemovalReason::NetworkIssue => K_RN,
+        SourceRemovalReason::Unreachable => K_RU,
+    }
+}
+
+fn slots_str(w: &[usize]) -> String {
+    w.iter().map(|k| KNAMES[*k]).collect::<Vec<_>>().join("")
+}
+
+fn parse_slots(s: &str) -> Option<Vec<usize>> {
+    s.chars()
+        .map(|c| KNAMES.iter().position(|n| n.chars().next() == Some(c)))
+        .collect()
+}
+
+// ---------------------------------------------------------------------------------------------
+// Part A: scripted spawner
+// ---------------------------------------------------------------------------------------------
+#[derive(Clone, Copy, PartialEq, Eq, Debug, Hash)]
+enum Mode {
+    C,
+    I,
+    F,
+}
+
+#[derive(Clone, Copy, PartialEq, Eq, Debug, Hash)]
+struct Script {
+    mode: Mode,
+    dur_ms: u64,
+}
+
+const MODES: [Mode; 3] = [Mode::C, Mode::I, Mode::F];
+const DURS: [u64; 3] = [0, 300, 1200];
+
+#[derive(Clone, Debug, PartialEq, Eq, Hash)]
+enum Rec {
+    TryStart(u64),
+    TryEnd(u64),
+    Removed(u64, u64, usize), // time, raw id as seen in Debug, reason code
+    Registered(u64, u64),
+}
+
+#[derive(Debug)]
+struct ScrErr;
+impl std::fmt::Display for ScrErr {
+    fn fmt(&self, f: &mut std::fmt::Formatter<'_>) -> std::fmt::Result {
+        write!(f, "scripted spawner error")
+    }
+}
+impl std::error::Error for ScrErr {}
+
+fn id_num(id: ClockId) -> u64 {
+    // ClockId(u64) has no public accessor; its Debug form is "ClockId(n)"
+    let s = format!("{id:?}");
+    s.trim_start_matches("ClockId(").trim_end_matches(')').parse().unwrap_or(u64::MAX)
+}
+
+struct Scr {
+    id: SpawnerId,
+    script: Script,
+    complete: bool,
+    t0: Instant,
+    log: Arc<Mutex<Vec<Rec>>>,
+}
+
+fn sock_params() -> SourceCreateParameters {
+    SourceCreateParameters::Sock(SockSourceCreateParameters {
+        id: ClockId::new(),
+        path: "/verif/none".into(),
+        config: SourceConfig::default(),
+        precision: 1e-3,
+        accuracy: 1e-3,
+    })
+}
+
+impl Spawner for Scr {
+    type Error = ScrErr;
+
+    async fn try_spawn(&mut self, action_tx: &mpsc::Sender<SpawnEvent>) -> Result<(), ScrErr> {
+        self.log.lock().unwrap().push(Rec::TryStart(us(self.t0)));
+        if self.script.dur_ms > 0 {
+            tokio::time::sleep(Duration::from_millis(self.script.dur_ms)).await;
+        }
+        match self.script.mode {
+            Mode::C | Mode::I => {
+                let _ = action_tx
+                    .send(SpawnEvent::new(self.id, SpawnAction::Create(sock_params())))
+                    .await;
+                if self.script.mode == Mode::C {
+                    self.complete = true;
+                }
+            }
+            Mode::F => {}
+        }
+        self.log.lock().unwrap().push(Rec::TryEnd(us(self.t0)));
+        Ok(())
+    }
+
+    fn is_complete(&self) -> bool {
+        self.complete
+    }
+
+    async fn handle_source_removed(&mut self, ev: SourceRemovedEvent) -> Result<(), ScrErr> {
+        self.log.lock().unwrap().push(Rec::Removed(us(self.t0), id_num(ev.id), reason_code(&ev.reason)));
+        self.complete = false;
+        Ok(())
+    }
+
+    async fn handle_registered(&mut self, ev: SourceCreateParameters) -> Result<(), ScrErr> {
+        self.log.lock().unwrap().push(Rec::Registered(us(self.t0), id_num(ev.get_id())));
+        Ok(())
+    }
+
+    fn get_id(&self) -> SpawnerId {
+        self.id
+    }
+    fn get_addr_description(&self) -> String {
+        "scripted".into()
+    }
+    fn get_description(&self) -> &'static str {
+        "scripted"
+    }
+}
+
+#[derive(Clone, Debug, PartialEq, Eq, Hash)]
+struct ObsA {
+    log: Vec<Rec>,
+    sends: Vec<(u64, usize, u64)>, // time, kind, id (0 for Idle)
+    creates: u64,
+    horizon: u64,
+    task_finished: Option<String>,
+}
+
+async fn run_a(script: Script, phase_ms: u64, slots: &[usize]) -> ObsA {
+    let t0 = Instant::now();
+    let log = Arc::new(Mutex::new(Vec::new()));
+    let scr = Scr {
+        id: SpawnerId::new(),
+        script,
+        complete: false,
+        t0,
+        log: log.clone(),
+    };
+    let (action_tx, mut action_rx) = mpsc::channel::<SpawnEvent>(crate::daemon::system::MESSAGE_BUFFER_SIZE);
+    let (notify_tx, notify_rx) = mpsc::channel::<SystemEvent>(crate::daemon::system::MESSAGE_BUFFER_SIZE);
+    let task = tokio::spawn(spawner_task(scr, action_tx, notify_rx));
+    let mut sends = Vec::new();
+    let mut creates = 0u64;
+    for (k, kind) in slots.iter().enumerate() {
+        let at = t0 + Duration::from_millis(phase_ms + 250 * k as u64);
+        tokio::time::sleep_until(at).await;
+        while action_rx.try_recv().is_ok() {
+            creates += 1;
+        }
+        match *kind {
+            K_NONE => {}
+            K_IDLE => {
+                sends.push((us(t0), K_IDLE, 0));
+                let _ = notify_tx.send(SystemEvent::Idle).await;
+            }
+            K_REG => {
+                let p = sock_params();
+                sends.push((us(t0), K_REG, id_num(p.get_id())));
+                let _ = notify_tx.send(SystemEvent::SourceRegistered(p)).await;
+            }
+            k => {
+                let id = ClockId::new();
+                sends.push((us(t0), k, id_num(id)));
+                let _ = notify_tx.send(SystemEvent::source_removed(id, reason_of(k))).await;
+            }
+        }
+    }
+    let last = phase_ms + 250 * (slots.len().max(1) as u64 - 1);
+    let horizon_ms = last + 2 * (1000 + script.dur_ms) + 500;
+    tokio::time::sleep_until(t0 + Duration::from_millis(horizon_ms)).await;
+    while action_rx.try_recv().is_ok() {
+        creates += 1;
+    }
+    let task_finished = if task.is_finished() {
+        Some(match task.await {
+            Ok(Ok(())) => "returned Ok".to_string(),
+            Ok(Err(e)) => format!("returned Err({e})"),
+            Err(e) => format!("join error: {e}"),
+        })
+    } else {
+        task.abort();
+        let _ = task.await;
+        None
+    };
+    drop(notify_tx);
+    let log = log.lock().unwrap().clone();
+    ObsA {
+        log,
+        sends,
+        creates,
+        horizon: horizon_ms * MS,
+        task_finished,
+    }
+}
+
+#[derive(Default)]
+struct FactsA {
+    attempts: u64,
+    removal_during_attempt: u64,
+    removal_immediate_respawn: u64,
+    removal_waited_for_ticket: u64,
+    tie_at_start: u64,
+    no_verdict_beyond_horizon: u64,
+}
+
+/// The statement's oracle for part A. Attempts are read from the spawner-side log, sends from the
+/// driver; completeness after an attempt is the script's (harness knowledge), not the code's.
+fn judge_a(script: Script, o: &ObsA) -> (Vec<(&'static str, String)>, FactsA) {
+    let mut v = Vec::new();
+    let mut f = FactsA::default();
+    if let Some(t) = &o.task_finished {
+        v.push(("C36:task-ended", format!("spawner_task ended while the system channel was open: {t}")));
+    }
+    // attempts
+    let mut att: Vec<(u64, Option<u64>)> = Vec::new();
+    for r in &o.log {
+        match r {
+            Rec::TryStart(t) => att.push((*t, None)),
+            Rec::TryEnd(t) => {
+                if let Some(l) = att.last_mut() {
+                    l.1 = Some(*t);
+                }
+            }
+            _ => {}
+        }
+    }
+    f.attempts = att.len() as u64;
+    for w in att.windows(2) {
+        if w[1].0 < w[0].0 + WAIT {
+            v.push((
+                "C36:spawn-too-early",
+                format!("attempts started at {} us and {} us: {} us apart, less than the 1 s wait period", w[0].0, w[1].0, w[1].0 - w[0].0),
+            ));
+        }
+    }
+    // first attempt
+    match att.first() {
+        None if o.horizon > WAIT + SLACK => v.push(("C36:spawn-stalled", "incomplete spawner: no attempt at all".to_string())),
+        Some((s, _)) if *s > WAIT + SLACK => v.push(("C36:spawn-stalled", format!("first attempt only at {s} us"))),
+        _ => {}
+    }
+    // keeps attempting while incomplete
+    if script.mode != Mode::C {
+        for i in 0..att.len() {
+            if let Some(e) = att[i].1 {
+                let dl = e + WAIT + SLACK;
+                if dl < o.horizon {
+                    match att.get(i + 1) {
+                        Some((s, _)) if *s <= dl => {}
+                        Some((s, _)) => v.push((
+                            "C36:spawn-stalled",
+                            format!("attempt {} ended at {e} us leaving the spawner incomplete; next attempt at {s} us, later than {dl} us", i),
+                        )),
+                        None => v.push((
+                            "C36:spawn-stalled",
+                            format!("attempt {} ended at {e} us leaving the spawner incomplete; no further attempt before the horizon {} us", i, o.horizon),
+                        )),
+                    }
+                } else {
+                    f.no_verdict_beyond_horizon += 1;
+                }
+            }
+        }
+    }
+    // removals
+    for (ts, kind, _) in &o.sends {
+        if *kind < K_RD {
+            continue;
+        }
+        let ts = *ts;
+        // attempt in progress at ts (strictly inside)
+        let running = att.iter().position(|(s, e)| *s < ts && e.map(|e| ts < e).unwrap_or(true));
+        if let Some(i) = running {
+            f.removal_during_attempt += 1;
+            let Some(e) = att[i].1 else {
+                f.no_verdict_beyond_horizon += 1;
+                continue;
+            };
+            let dl = e + WAIT + SLACK;
+            if dl >= o.horizon {
+                f.no_verdict_beyond_horizon += 1;
+                continue;
+            }
+            if !att.iter().skip(i + 1).any(|(s, _)| *s <= dl) {
+                v.push((
+                    "C36:spawn-stalled",
+                    format!("removal sent at {ts} us during attempt {} (ended {e} us): no attempt by {dl} us", i),
+                ));
+            }
+            continue;
+        }
+        if att.iter().any(|(s, _)| *s == ts) {
+            // event and attempt start at the same virtual instant: either order is legitimate
+            f.tie_at_start += 1;
+            continue;
+        }
+        let last_end = att.iter().filter_map(|(_, e)| *e).filter(|e| *e <= ts).max();
+        let dl = match last_end {
+            Some(e) => ts.max(e + WAIT) + SLACK,
+            None => ts.max(WAIT) + SLACK,
+        };
+        if dl >= o.horizon {
+            f.no_verdict_beyond_horizon += 1;
+            continue;
+        }
+        match att.iter().find(|(s, _)| *s >= ts) {
+            Some((s, _)) if *s <= dl => {
+                if *s <= ts + SLACK {
+                    f.removal_immediate_respawn += 1;
+                } else {
+                    f.removal_waited_for_ticket += 1;
+                }
+            }
+            Some((s, _)) => v.push((
+                "C36:spawn-stalled",
+                format!("removal sent at {ts} us (last attempt ended {last_end:?}): next attempt at {s} us, later than {dl} us"),
+            )),
+            None => v.push((
+                "C36:spawn-stalled",
+                format!("removal sent at {ts} us (last attempt ended {last_end:?}): no attempt by {dl} us"),
+            )),
+        }
+    }
+    // delivery: exactly once, in order, same payload
+    let want: Vec<(usize, u64)> = o.sends.iter().filter(|s| s.1 != K_IDLE).map(|s| (s.1, s.2)).collect();
+    let got: Vec<(usize, u64)> = o
+        .log
+        .iter()
+        .filter_map(|r| match r {
+            Rec::Removed(_, id, k) => Some((*k, *id)),
+            Rec::Registered(_, id) => Some((K_REG, *id)),
+            _ => None,
+        })
+        .collect();
+    // an attempt still running at the horizon legitimately holds back the events queued behind it
+    let running_at_horizon = att.last().map(|(_, e)| e.is_none()).unwrap_or(false);
+    let ok = if running_at_horizon {
+        got.len() <= want.len() && want[..got.len()] == got[..]
+    } else {
+        want == got
+    };
+    if !ok {
+        v.push((
+            "C36:event-delivery",
+            format!("events sent {want:?} but the spawner's handlers saw {got:?}"),
+        ));
+    }
+    (v, f)
+}
+
+fn trace_a(script: Script, phase: u64, slots: &[usize]) -> String {
+    format!("A;mode={:?};dur={};phase={};slots={}", script.mode, script.dur_ms, phase, slots_str(slots))
+}
+
+// ---------------------------------------------------------------------------------------------
+// Part B: real StandardSpawner + DNS stub
+// ---------------------------------------------------------------------------------------------
+#[derive(Clone, Debug, PartialEq, Eq, Hash)]
+enum RecB {
+    /// time, address index in raw0 (or 99), stub rotations at that moment
+    Create(u64, usize, usize),
+    /// time, kind, stub rotations at that moment
+    Sent(u64, usize, usize),
+}
+
+#[derive(Clone, Debug, PartialEq, Eq, Hash)]
+struct ObsB {
+    log: Vec<RecB>,
+    horizon: u64,
+    task_finished: Option<String>,
+}
+
+fn raw0() -> Vec<SocketAddr> {
+    (1..=8u8)
+        .map(|i| SocketAddr::new(IpAddr::V4(Ipv4Addr::new(127, 0, 36, i)), 123))
+        .collect()
+}
+
+/// First address of the answer of lookup number `k` (k >= 1) after `set_raw(raw0)`.
+fn first_answer(raw: &[SocketAddr], k: usize) -> SocketAddr {
+    let n = raw.len();
+    raw[(n - (k % n)) % n]
+}
+
+struct SysB {
+    active: Option<ClockId>,
+    pending_reg: Option<SourceCreateParameters>,
+    log: Vec<RecB>,
+}
+
+async fn run_b(phase_ms: u64, grid_ms: u64, slots: &[usize]) -> ObsB {
+    let (addr, dns) = dnsp::scripted("single.verif.example", 123);
+    let raw = raw0();
+    dns.set_raw(&raw);
+    let sp = StandardSpawner::new(
+        StandardSource {
+            address: addr.into(),
+            ntp_version: ProtocolVersion::V4,
+        },
+        SourceConfig::default(),
+    );
+    let t0 = Instant::now();
+    let (action_tx, mut action_rx) = mpsc::channel::<SpawnEvent>(crate::daemon::system::MESSAGE_BUFFER_SIZE);
+    let (notify_tx, notify_rx) = mpsc::channel::<SystemEvent>(crate::daemon::system::MESSAGE_BUFFER_SIZE);
+    let sys = Arc::new(Mutex::new(SysB {
+        active: None,
+        pending_reg: None,
+        log: Vec::new(),
+    }));
+    let task = tokio::spawn(spawner_task(sp, action_tx, notify_rx));
+    let sys2 = sys.clone();
+    let dns2 = dns.clone();
+    let raw2 = raw.clone();
+    let receiver = tokio::spawn(async move {
+        while let Some(ev) = action_rx.recv().await {
+            let SpawnAction::Create(params) = ev.action;
+            let a = match &params {
+                SourceCreateParameters::Ntp(p) => raw2.iter().position(|x| *x == p.addr).unwrap_or(99),
+                _ => 99,
+            };
+            let rot = dns2.rotations_since(&raw2).unwrap_or(usize::MAX);
+            let mut s = sys2.lock().unwrap();
+            s.active = Some(params.get_id());
+            s.pending_reg = Some(params);
+            s.log.push(RecB::Create(us(t0), a, rot));
+        }
+    });
+    for (k, kind) in slots.iter().enumerate() {
+        let at = t0 + Duration::from_millis(phase_ms + grid_ms * k as u64);
+        tokio::time::sleep_until(at).await;
+        let rot = dns.rotations_since(&raw).unwrap_or(usize::MAX);
+        let ev = {
+            let mut s = sys.lock().unwrap();
+            match *kind {
+                K_NONE => None,
+                K_IDLE => {
+                    s.log.push(RecB::Sent(us(t0), K_IDLE, rot));
+                    Some(SystemEvent::Idle)
+                }
+                K_REG => s.pending_reg.take().map(|p| {
+                    s.log.push(RecB::Sent(us(t0), K_REG, rot));
+                    SystemEvent::SourceRegistered(p)
+                }),
+                k => s.active.take().map(|id| {
+                    s.pending_reg = None;
+                    s.log.push(RecB::Sent(us(t0), k, rot));
+                    SystemEvent::source_removed(id, reason_of(k))
+                }),
+            }
+        };
+        if let Some(ev) = ev {
+            let _ = notify_tx.send(ev).await;
+        }
+    }
+    let last = phase_ms + grid_ms * (slots.len().max(1) as u64 - 1);
+    let horizon_ms = last + 2500;
+    tokio::time::sleep_until(t0 + Duration::from_millis(horizon_ms)).await;
+    let task_finished = if task.is_finished() {
+        Some(match task.await {
+            Ok(Ok(())) => "returned Ok".to_string(),
+            Ok(Err(e)) => format!("returned Err({e})"),
+            Err(e) => format!("join error: {e}"),
+        })
+    } else {
+        task.abort();
+        let _ = task.await;
+        None
+    };
+    drop(notify_tx);
+    receiver.abort();
+    let _ = receiver.await;
+    let log = sys.lock().unwrap().log.clone();
+    ObsB {
+        log,
+        horizon: horizon_ms * MS,
+        task_finished,
+    }
+}
+
+#[derive(Default)]
+struct FactsB {
+    creates: u64,
+    demobilized: bool,
+    respawn_after_unreachable: u64,
+    respawn_after_network_issue_cached: u64,
+    respawn_after_network_issue_fresh: u64,
+    lookups: usize,
+    removals_sent: u64,
+    registered_sent: u64,
+}
+
+fn judge_b(o: &ObsB) -> (Vec<(&'static str, String)>, FactsB) {
+    let raw = raw0();
+    let mut v = Vec::new();
+    let mut f = FactsB::default();
+    if let Some(t) = &o.task_finished {
+        v.push(("C36:task-ended", format!("spawner_task ended while the system channel was open: {t}")));
+    }
+    let mut demob_at: Option<u64> = None;
+    let mut last_create: Option<u64> = None;
+    // (deadline, reason kind, rotations at removal, removal time)
+    let mut awaiting: Option<(u64, usize, usize, u64)> = Some((WAIT + SLACK, K_NONE, 0, 0));
+    for r in &o.log {
+        match r {
+            RecB::Create(t, a, rot) => {
+                f.creates += 1;
+                f.lookups = f.lookups.max(*rot);
+                if let Some(d) = demob_at {
+                    v.push((
+                        "C36:demobilized-respawned",
+                        format!("source demobilised at {d} us, yet a new source was created at {t} us"),
+                    ));
+                }
+                if let Some(l) = last_create {
+                    if *t < l + WAIT {
+                        v.push(("C36:spawn-too-early", format!("sources created at {l} us and {t} us, less than 1 s apart")));
+                    }
+                }
+                if *rot == 0 || *rot == usize::MAX || *a >= raw.len() || raw[*a] != first_answer(&raw, *rot) {
+                    v.push((
+                        "C36:address-not-from-latest-lookup",
+                        format!("source created at {t} us for address #{a} after {rot} lookups; the latest answer starts with {}", first_answer(&raw, *rot)),
+                    ));
+                }
+                if let Some((dl, kind, rot0, ts)) = awaiting.take() {
+                    if *t > dl {
+                        v.push(("C36:spawn-stalled", format!("spawn due by {dl} us (removal/start at {ts} us) happened at {t} us")));
+                    }
+                    match kind {
+                        K_RU => {
+                            f.respawn_after_unreachable += 1;
+                            if *rot <= rot0 {
+                                v.push((
+                                    "C36:unreachable-not-reresolved",
+                                    format!("source removed as unreachable at {ts} us ({rot0} lookups so far); respawned at {t} us without a new lookup ({rot} lookups), address #{a} reused"),
+                                ));
+                            }
+                        }
+                        K_RN => {
+                            if *rot > rot0 {
+                                f.respawn_after_network_issue_fresh += 1;
+                            } else {
+                                f.respawn_after_network_issue_cached += 1;
+                            }
+                        }
+                        _ => {}
+                    }
+                }
+                last_create = Some(*t);
+            }
+            RecB::Sent(t, kind, rot) => match *kind {
+                K_RD => {
+                    f.removals_sent += 1;
+                    f.demobilized = true;
+                    demob_at = Some(*t);
+                    awaiting = None;
+                }
+                K_RN | K_RU => {
+                    f.removals_sent += 1;
+                    let dl = (*t).max(last_create.map(|l| l + WAIT).unwrap_or(0)) + SLACK;
+                    awaiting = Some((dl, *kind, *rot, *t));
+                }
+                K_REG => f.registered_sent += 1,
+                _ => {}
+            },
+        }
+    }
+    if let Some((dl, _, _, ts)) = awaiting {
+        if dl < o.horizon {
+            v.push(("C36:spawn-stalled", format!("spawn due by {dl} us (removal/start at {ts} us) never happened before the horizon {} us", o.horizon)));
+        }
+    }
+    (v, f)
+}
+
+fn trace_b(phase: u64, grid: u64, slots: &[usize]) -> String {
+    format!("B;phase={phase};grid={grid};slots={}", slots_str(slots))
+}
+
+// ---------------------------------------------------------------------------------------------
+// runtimes, replay, check
+// ---------------------------------------------------------------------------------------------
+fn rt_time_only() -> tokio::runtime::Runtime {
+    tokio::runtime::Builder::new_current_thread()
+        .enable_time()
+        .start_paused(true)
+        .build()
+        .expect("runtime")
+}
+
+fn rt_all() -> tokio::runtime::Runtime {
+    tokio::runtime::Builder::new_current_thread()
+        .enable_all()
+        .start_paused(true)
+        .build()
+        .expect("runtime")
+}
+
+fn kv<'a>(parts: &'a [&'a str], key: &str) -> Option<&'a str> {
+    parts.iter().find_map(|p| p.strip_prefix(key)?.strip_prefix('='))
+}
+
+fn replay(ctx: &Ctx, trace: &str) -> String {
+    let parts: Vec<&str> = trace.trim().split(';').collect();
+    let slots = kv(&parts, "slots").and_then(parse_slots);
+    let phase: Option<u64> = kv(&parts, "phase").and_then(|s| s.parse().ok());
+    let (Some(slots), Some(phase)) = (slots, phase) else {
+        return format!("unparsable trace {trace:?}");
+    };
+    match parts[0] {
+        "A" => {
+            let mode = match kv(&parts, "mode") {
+                Some("C") => Mode::C,
+                Some("I") => Mode::I,
+                Some("F") => Mode::F,
+                _ => return format!("unparsable mode in {trace:?}"),
+            };
+            let Some(dur_ms) = kv(&parts, "dur").and_then(|s| s.parse().ok()) else {
+                return format!("unparsable dur in {trace:?}");
+            };
+            let script = Script { mode, dur_ms };
+            let rt = rt_time_only();
+            let o = rt.block_on(run_a(script, phase, &slots));
+            let (vs, _) = judge_a(script, &o);
+            for (c, w) in &vs {
+                ctx.violation(c, w.clone(), trace);
+            }
+            // ids come from a global counter: print the observation with ids masked
+            let log: Vec<String> = o
+                .log
+                .iter()
+                .map(|r| match r {
+                    Rec::TryStart(t) => format!("start@{t}"),
+                    Rec::TryEnd(t) => format!("end@{t}"),
+                    Rec::Removed(t, _, k) => format!("removed[{}]@{t}", KNAMES[*k]),
+                    Rec::Registered(t, _) => format!("registered@{t}"),
+                })
+                .collect();
+            let sends: Vec<String> = o.sends.iter().map(|s| format!("{}@{}", KNAMES[s.1], s.0)).collect();
+            format!("sent [{}] -> spawner saw [{}]; creates={}; verdicts={:?}", sends.join(" "), log.join(" "), o.creates, vs)
+        }
+        "B" => {
+            let grid: u64 = kv(&parts, "grid").and_then(|s| s.parse().ok()).unwrap_or(500);
+            let rt = rt_all();
+            let o = rt.block_on(run_b(phase, grid, &slots));
+            let (vs, _) = judge_b(&o);
+            for (c, w) in &vs {
+                ctx.violation(c, w.clone(), trace);
+            }
+            let log: Vec<String> = o
+                .log
+                .iter()
+                .map(|r| match r {
+                    RecB::Create(t, a, rot) => format!("create(addr#{a},lookups={rot})@{t}"),
+                    RecB::Sent(t, k, rot) => format!("sent[{}](lookups={rot})@{t}", KNAMES[*k]),
+                })
+                .collect();
+            format!("[{}]; verdicts={:?}", log.join(" "), vs)
+        }
+        _ => format!("unknown trace kind {trace:?}"),
+    }
+}
+
+/// Observation with ids removed (ids come from process-wide counters).
+fn canon_a(o: &ObsA) -> u64 {
+    let log: Vec<(u8, u64, usize)> = o
+        .log
+        .iter()
+        .map(|r| match r {
+            Rec::TryStart(t) => (0, *t, 0),
+            Rec::TryEnd(t) => (1, *t, 0),
+            Rec::Removed(t, _, k) => (2, *t, *k),
+            Rec::Registered(t, _) => (3, *t, 0),
+        })
+        .collect();
+    let sends: Vec<(u64, usize)> = o.sends.iter().map(|s| (s.0, s.1)).collect();
+    common::hash_of(&(log, sends, o.creates, &o.task_finished))
+}
+
+/// Per-worker state: a runtime plus thread-local counters / distinct hashes which are flushed into
+/// the shared `Ctx` when the worker ends (one lock per worker instead of ~20 per schedule).
+struct Worker<'a> {
+    rt: tokio::runtime::Runtime,
+    ctx: &'a Ctx,
+    counters: std::collections::BTreeMap<&'static str, u64>,
+    distinct: Vec<u64>,
+}
+
+impl<'a> Worker<'a> {
+    fn new(ctx: &'a Ctx, rt: tokio::runtime::Runtime) -> Worker<'a> {
+        Worker {
+            rt,
+            ctx,
+            counters: Default::default(),
+            distinct: Vec::new(),
+        }
+    }
+    fn add(&mut self, k: &'static str, n: u64) {
+        if n > 0 {
+            *self.counters.entry(k).or_insert(0) += n;
+        }
+    }
+}
+
+impl Drop for Worker<'_> {
+    fn drop(&mut self) {
+        for (k, v) in &self.counters {
+            self.ctx.add(k, *v);
+        }
+        self.ctx.distinct_many(self.distinct.drain(..));
+    }
+}
+
+const ATT_KEYS: [&str; 7] = [
+    "a_runs_with_0_attempts",
+    "a_runs_with_1_attempts",
+    "a_runs_with_2_attempts",
+    "a_runs_with_3_attempts",
+    "a_runs_with_4_attempts",
+    "a_runs_with_5_attempts",
+    "a_runs_with_6plus_attempts",
+];
+
+fn sweep_a(ctx: &Ctx, scripts: &[Script], n: usize, phases: &[u64]) -> u64 {
+    let words = common::pow(6, n);
+    let total = scripts.len() as u64 * phases.len() as u64 * words;
+    common::par_for_with(
+        total,
+        512,
+        || Worker::new(ctx, rt_time_only()),
+        |wk, i| {
+            let w = common::word_of(i % words, 6, n);
+            let rest = i / words;
+            let phase = phases[(rest % phases.len() as u64) as usize];
+            let script = scripts[(rest / phases.len() as u64) as usize];
+            let o = match common::catch(|| wk.rt.block_on(run_a(script, phase, &w))) {
+                Ok(o) => o,
+                Err(p) => {
+                    ctx.violation("C36:panic", format!("panic: {p}"), trace_a(script, phase, &w));
+                    wk.rt = rt_time_only();
+                    return;
+                }
+            };
+            let (vs, f) = judge_a(script, &o);
+            wk.add("evaluations", 1);
+            wk.add("a_schedules", 1);
+            wk.add("transitions", o.log.len() as u64);
+            wk.add("a_attempts", f.attempts);
+            wk.add(ATT_KEYS[f.attempts.min(6) as usize], 1);
+            wk.add("a_removal_during_attempt", f.removal_during_attempt);
+            wk.add("a_removal_immediate_respawn", f.removal_immediate_respawn);
+            wk.add("a_removal_waited_for_ticket", f.removal_waited_for_ticket);
+            wk.add("a_removal_tie_with_attempt_start", f.tie_at_start);
+            wk.add("a_deadlines_beyond_horizon_no_verdict", f.no_verdict_beyond_horizon);
+            wk.add("a_events_sent", o.sends.len() as u64);
+            wk.add("a_sources_created", o.creates);
+            for (c, what) in vs {
+                ctx.violation(c, what, trace_a(script, phase, &w));
+            }
+            if !o.sends.is_empty() {
+                wk.distinct.push(canon_a(&o));
+            }
+            if i % 61 == 0 {
+                let o2 = wk.rt.block_on(run_a(script, phase, &w));
+                wk.add("determinism_reruns", 1);
+                if canon_a(&o2) != canon_a(&o) {
+                    ctx.violation("C36:harness-nondeterminism", "two executions of one schedule differ", trace_a(script, phase, &w));
+                }
+            }
+            if n == 5 && i % 46_657 == 77 {
+                let tmp = Ctx::new("C36");
+                ctx.sample(format!("{} => {}", trace_a(script, phase, &w), replay(&tmp, &trace_a(script, phase, &w))));
+            }
+        },
+    );
+    total
+}
+
+fn sweep_b(ctx: &Ctx, n: usize, grid: u64, phases: &[u64]) -> u64 {
+    let words = common::pow(6, n);
+    let total = phases.len() as u64 * words;
+    common::par_for_with(
+        total,
+        128,
+        || Worker::new(ctx, rt_all()),
+        |wk, i| {
+            let w = common::word_of(i % words, 6, n);
+            let phase = phases[(i / words) as usize];
+            let o = match common::catch(|| wk.rt.block_on(run_b(phase, grid, &w))) {
+                Ok(o) => o,
+                Err(p) => {
+                    ctx.violation("C36:panic", format!("panic: {p}"), trace_b(phase, grid, &w));
+                    wk.rt = rt_all();
+                    return;
+                }
+            };
+            let (vs, f) = judge_b(&o);
+            wk.add("evaluations", 1);
+            wk.add("b_schedules", 1);
+            wk.add("transitions", o.log.len() as u64);
+            wk.add("b_sources_created", f.creates);
+            wk.add("b_removals_sent", f.removals_sent);
+            wk.add("b_registered_sent", f.registered_sent);
+            wk.add("b_lookups_observed", f.lookups as u64);
+            wk.add("b_runs_with_demobilisation", f.demobilized as u64);
+            wk.add("b_respawns_after_unreachable", f.respawn_after_unreachable);
+            wk.add("b_respawns_after_network_issue_cached_address", f.respawn_after_network_issue_cached);
+            wk.add("b_respawns_after_network_issue_fresh_lookup", f.respawn_after_network_issue_fresh);
+            for (c, what) in vs {
+                ctx.violation(c, what, trace_b(phase, grid, &w));
+            }
+            if f.removals_sent + f.registered_sent > 0 {
+                wk.distinct.push(common::hash_of(&("B", &o.log)));
+            }
+            if i % 61 == 0 {
+                let o2 = wk.rt.block_on(run_b(phase, grid, &w));
+                wk.add("determinism_reruns", 1);
+                if o2 != o {
+                    ctx.violation("C36:harness-nondeterminism", "two executions of one schedule differ", trace_b(phase, grid, &w));
+                }
+            }
+            if n == 5 && i % 2_203 == 1_234 {
+                let tmp = Ctx::new("C36");
+                ctx.sample(format!("{} => {}", trace_b(phase, grid, &w), replay(&tmp, &trace_b(phase, grid, &w))));
+            }
+        },
+    );
+    total
+}
+
+#[test]
+fn check() {
+    let ctx = Ctx::new("C36");
+    if let Some(t) = common::replay_trace() {
+        let a = replay(&ctx, &t);
+        let b = replay(&ctx, &t);
+        common::report_replay("C36", &a, &b, ctx.violation_count() > 0);
+        return;
+    }
+    let quick = ctx.quick();
+    // (slots, phases) blocks; block 0 is the quick tier, thorough runs all of them in this order
+    let blocks_a: Vec<(usize, Vec<u64>)> = if quick {
+        vec![(5, vec![0, 1, 50, 249])]
+    } else {
+        vec![
+            (5, vec![0, 1, 50, 249]),
+            (6, vec![49, 51, 199, 200, 201]),
+            (7, vec![0, 1, 50, 249]),
+        ]
+    };
+    let blocks_b: Vec<(usize, Vec<u64>)> = if quick {
+        vec![(5, vec![0, 1])]
+    } else {
+        vec![(5, vec![0, 1]), (6, vec![0, 1, 499])]
+    };
+    let grid_b = 500u64;
+    ctx.rule(&format!(
+        "A: real spawner_task + scripted spawner, scripts {{C,I,F}} x durations {{0,300,1200}} ms, ALL 6^n placements of \
+         {{none,Idle,Registered,Removed(D),Removed(N),Removed(U)}} on n slots of a 250 ms grid shifted by each phase, \
+         (n, phases ms) blocks {blocks_a:?}; B: real spawner_task + real StandardSpawner + scripted DNS stub, ALL 6^n \
+         placements on n slots of a {grid_b} ms grid, blocks {blocks_b:?}. Virtual time (tokio paused clock, auto-advance to \
+         the next timer). A case is distinct & non-trivial by its observation (attempt/handler/creation times and kinds, ids \
+         masked) when at least one event was sent."
+    ));
+    ctx.assume("tokio's paused clock + current-thread scheduler: timers fire at their deadline rounded up to 1 ms; tasks that become ready at the same virtual instant run in tokio's deterministic FIFO order (both orders around an instant are covered by the +-1 ms phases)");
+    ctx.assume("part A: completeness after an attempt is the script's; any Removed makes the scripted spawner incomplete");
+    ctx.assume("part B: the DNS stub always answers (8 distinct loopback addresses) and UDP connect() to 127.0.36.x succeeds, so every attempt of the real StandardSpawner creates a source; lookups are counted by the rotation of the stub list");
+    ctx.assume("NtsSpawner (nts.rs) is not driven: it needs a TCP+TLS key-exchange peer; by reading, its handle_source_removed clears has_spawned for every reason");
+
+    let scripts: Vec<Script> = MODES
+        .iter()
+        .flat_map(|m| DURS.iter().map(move |d| Script { mode: *m, dur_ms: *d }))
+        .collect();
+    let mut complete = true;
+    let mut expected_a = 0u64;
+    for (bi, (n, phases)) in blocks_a.iter().enumerate() {
+        if bi > 0 && ctx.over_budget() {
+            ctx.cap_hit(&format!("part A block (n={n}, phases {phases:?}) not started; earlier blocks complete"));
+            complete = false;
+            break;
+        }
+        expected_a += sweep_a(&ctx, &scripts, *n, phases);
+    }
+    ctx.set("a_schedules_expected", expected_a);
+    ctx.set("a_wall_ms", (ctx.elapsed_s() * 1000.0) as u64);
+    let mut expected_b = 0u64;
+    for (bi, (n, phases)) in blocks_b.iter().enumerate() {
+        if bi > 0 && ctx.over_budget() {
+            ctx.cap_hit(&format!("part B block (n={n}, phases {phases:?}) not started; earlier blocks complete"));
+            complete = false;
+            break;
+        }
+        expected_b += sweep_b(&ctx, *n, grid_b, phases);
+    }
+    ctx.set("b_schedules_expected", expected_b);
+    ctx.set("total_wall_ms", (ctx.elapsed_s() * 1000.0) as u64);
+    ctx.set("states", ctx.distinct_count());
+    ctx.exhaustive(complete);
+    ctx.finish();
+}
